@@ -185,8 +185,27 @@ fn grouped(mode: &ModeSpec, lname: &str, data: &[u8], len: usize, group_chunks: 
     if len <= glen {
         return;
     }
+    for recycle in [false, true] {
     let r = vcommon::catch(|| {
         let mut cvs: Vec<[u8; 32]> = vec![];
+        if recycle {
+            // one hasher reused for every group through reset(), last group first (so that a non-zero
+            // offset is followed by smaller ones and finally by 0): a subtree's chaining value must not
+            // depend on what the hasher did before the reset
+            let ngroups = (len + glen - 1) / glen;
+            let mut h = mode.hasher();
+            cvs = vec![[0u8; 32]; ngroups];
+            for g in (0..ngroups).rev() {
+                let off = g * glen;
+                let take = glen.min(len - off);
+                h.reset();
+                h.set_input_offset(off as u64);
+                let cut = take / 3;
+                h.update(&data[off..off + cut]);
+                h.update(&data[off + cut..off + take]);
+                cvs[g] = h.finalize_non_root();
+            }
+        } else {
         let mut off = 0;
         while off < len {
             let take = glen.min(len - off);
@@ -195,6 +214,7 @@ fn grouped(mode: &ModeSpec, lname: &str, data: &[u8], len: usize, group_chunks: 
             h.update(&data[off..off + take]);
             cvs.push(h.finalize_non_root());
             off += take;
+        }
         }
         while cvs.len() > 2 {
             let n = cvs.len();
@@ -211,9 +231,10 @@ fn grouped(mode: &ModeSpec, lname: &str, data: &[u8], len: usize, group_chunks: 
     });
     rep.inc("evaluations");
     match r {
-        Ok((l, rr)) => root_checks(mode, lname, data, len, &l, &rr, oracle, rep, json!({"kind": "grouped", "input_len": len, "group_chunks": group_chunks})),
-        Err(m) => rep.violation("hazmat:grouped:panic", format!("grouped hashing of {} bytes in {}-chunk groups panics: {}", len, group_chunks, m),
-            rj(mode, lname, json!({"kind": "grouped", "input_len": len, "group_chunks": group_chunks}), "hazmat:grouped:panic", "no panic".into(), m)),
+        Ok((l, rr)) => root_checks(mode, lname, data, len, &l, &rr, oracle, rep, json!({"kind": "grouped", "input_len": len, "group_chunks": group_chunks, "recycled_hasher": recycle})),
+        Err(m) => rep.violation("hazmat:grouped:panic", format!("grouped hashing of {} bytes in {}-chunk groups (one hasher recycled through reset: {}) panics: {}", len, group_chunks, recycle, m),
+            rj(mode, lname, json!({"kind": "grouped", "input_len": len, "group_chunks": group_chunks, "recycled_hasher": recycle}), "hazmat:grouped:panic", "no panic".into(), m)),
+    }
     }
 }
 
@@ -399,7 +420,7 @@ pub fn run(args: &Args, rep: &mut Report) {
     });
     rep.merge(r);
     rep.configs.push(subject::config_json());
-    rep.rule = format!("(1) every node of the tree of every input of 1..={} chunks (+ partial last chunk in 0,1,63,64,1023), hashed with set_input_offset + 6 update splits + finalize_non_root, vs the spec CV; (2) every recursive decomposition of inputs up to {} chunks, merged with merge_subtrees_non_root / _root / _root_xof; fixed 1..64-chunk groupings up to 128 chunks; (3) subtrees of 1..64 chunks at chunk counters around 2^32, 2^33, 2^53, 2^54-1; (4) left_subtree_len on every n in (1024, 2^{}] and +-4096 around every power of two up to 2^64-1, max_subtree_len on every chunk index up to 2^{} and around powers of two up to 2^54-1; x 4 modes x every SIMD level; non-trivial = distinct (level, mode, node/offset, split plan) or helper argument",
+    rep.rule = format!("(1) every node of the tree of every input of 1..={} chunks (+ partial last chunk in 0,1,63,64,1023), hashed with set_input_offset + 6 update splits + finalize_non_root, vs the spec CV; (2) every recursive decomposition of inputs up to {} chunks, merged with merge_subtrees_non_root / _root / _root_xof; fixed 1..64-chunk groupings up to 128 chunks, each also with one hasher recycled through reset() for all groups (last group first); (3) subtrees of 1..64 chunks at chunk counters around 2^32, 2^33, 2^53, 2^54-1; (4) left_subtree_len on every n in (1024, 2^{}] and +-4096 around every power of two up to 2^64-1, max_subtree_len on every chunk index up to 2^{} and around powers of two up to 2^54-1; x 4 modes x every SIMD level; non-trivial = distinct (level, mode, node/offset, split plan) or helper argument",
         if t { 72 } else { 40 }, if t { 20 } else { 16 }, if t { 26 } else { 24 }, if t { 26 } else { 24 });
     rep.sample(json!({"kind": "node", "mode": {"kind": "keyed"}, "input_len": 5 * 1024 + 63, "lo": 4096, "hi": 5183, "plan": [1, 63, 64, 65, 894]}));
     rep.sample(json!({"kind": "high-offset", "chunk_counter": ((1u64 << 32) - 64).to_string(), "len": 65536, "plan": [65536]}));
